@@ -19,7 +19,7 @@ class MergeWith:
     opts = {"event": "(self, rhs)"}
 
 
-@contract(YM + "merge_condense_all", props=["C18"])
+@contract(YM + "merge_condense_all", props=["C18", "C16"])
 class CondenseAll:
     modifies = ["lhs_docs"]
     opts = {"event": "('condense', lhs_docs, rhs_docs)"}
@@ -43,7 +43,7 @@ class CondenseAll:
     ensures = ["len(lhs_docs) == 1", "lhs_docs[0] is first", "result in (0, 11, 12, 13, 14)"]
 
 
-@contract(YM + "merge_across", props=["C18"])
+@contract(YM + "merge_across", props=["C18", "C16"])
 class Across:
     modifies = ["lhs_docs"]
     opts = {"event": "('across', lhs_docs, rhs_docs)"}
@@ -76,7 +76,7 @@ class DeepCopy:
     opts = {"returns": "Any", "event": "('deepcopy', a0, result)"}
 
 
-@contract(YM + "merge_matrix", props=["C18"])
+@contract(YM + "merge_matrix", props=["C18", "C16"])
 class Matrix:
     modifies = ["lhs_docs"]
     opts = {"event": "('matrix', lhs_docs, rhs_docs)"}
@@ -116,7 +116,7 @@ class GetDocMergers:
     opts = {"returns": "Tuple[List[Merger], bool]"}
 
 
-@contract(YM + "merge_docs", props=["C18"])
+@contract(YM + "merge_docs", props=["C18", "C16"])
 class MergeDocs:
     """The selected mode, and nothing else, decides which driver combines the two streams; an unloadable
     right-hand stream stops with status 3 before any merge."""
